@@ -132,9 +132,36 @@ def inline_small_documents(seed):
                 break
         if len(fails) >= 3:
             break
+    # multi-language mode: each formula takes the next placeholder of the
+    # collection of the language in force at the formula; the collections of
+    # the languages rotate independently
+    import re
+    settings = parameters.Parameters('en').parser_lang_settings
+    src = ('\\usepackage[german,russian,english]{babel}\n'
+           'Aaa $a$ bbb $b$.\n\n\\selectlanguage{russian}\n'
+           'Ccc $c$ ddd $d,$ eee $e$.\n\n\\selectlanguage{german}\n'
+           'Fff $f$ ggg $g$.\n\n\\selectlanguage{english}\n'
+           'Hhh $h$ iii.\n')
+    n += 1
+    try:
+        ml = t2t.tex2txt(src, t2t.Options(lang='en', pack='babel'),
+                         multi_language=True)
+        for code, parts in ml.items():
+            key = code[:2].lower()
+            coll = list(parameters.Parameters(key).parser_lang_settings[
+                key].math_repl_inline)
+            txt = ' '.join(p[0] for p in parts)
+            phs = [w.rstrip('.,;:') for w in txt.split() if '-' in w]
+            want = [coll[(i + 1) % len(coll)] for i in range(len(phs))]
+            if phs != want:
+                fails.append({'input': src, 'part': code, 'placeholders':
+                              phs, 'expected': want})
+    except Exception as e:      # noqa
+        fails.append({'input': src, 'why': repr(e)})
     return {'name': 'inline-formulas-on-small-documents', 'bounded': True,
             'bound': '3 languages x all sequences of 1-2 formulas, a 7th of '
-                     'those of 3 and a 60th of those of 4, over 13 bodies',
+                     'those of 3 and a 60th of those of 4, over 13 bodies; '
+                     'one multi-language document with three languages',
             'evaluations': n, 'failures': fails}
 
 
